@@ -7,7 +7,13 @@
 // wake-up condition holds must have returned (waited for with a long deadline —
 // a hang is a lost wake-up), one whose condition does not hold must still be
 // blocked.  After every op the complete observable state is printed and compared
-// with the Lean model's.
+// with the Lean model's.  A traverser that does not return within hangTimeout
+// although its condition holds is reported (lost-wakeup), stays pending (printed
+// as blocked, which is what it is) and is polled with a short deadline afterwards.
+//
+// Part 2 (search support only, no model): the `stress` op runs real goroutines
+// (appender, two removers, k traversers) on a separate list and is judged by the
+// oracle alone; see func stress.
 //
 // op lines (ids/traverser numbers: 1..6 decimal digits; traversers 0..3):
 //
